@@ -16,6 +16,7 @@ import (
 	"fmt"
 	"io"
 	"os"
+	"strings"
 	"testing"
 	"time"
 
@@ -70,6 +71,8 @@ type c03Obs struct {
 	VPCCalls    int        `json:"vpc_calls"`
 	VCCalls     int        `json:"vc_calls"`
 	TamperHit   int        `json:"tamper_hit"`
+	AckSent     int        `json:"ack_sent"`     // ack_* deviations: record numbers the rogue client acknowledged
+	PeerCerts   int        `json:"peer_certs"`   // honest side established: len(ConnectionState().PeerCertificates)
 	HonestAlert int        `json:"honest_alert"` // description of the alert the honest side raised, -1 if none seen
 }
 
@@ -147,7 +150,8 @@ func (s c03Scn) configs(obs *c03Obs) (*dtlsConfig, *dtlsConfig) {
 	signer := func(k crypto.PrivateKey) crypto.Signer { return k.(crypto.Signer) } //nolint:forcetypeassert
 	if s.Rogue == "scheme_confusion" {
 		c03ConfusionConfigs(s, c, sv)
-	} else if s.Rogue == "server_name" || s.Rogue == "empty_psk" || s.Rogue == "psk_only_13" {
+	} else if s.Rogue == "server_name" || s.Rogue == "empty_psk" || s.Rogue == "psk_only_13" ||
+		strings.HasPrefix(s.Rogue, "ack_") {
 		c03ExtConfigs(s, &c, &sv, obs)
 	} else if s.Honest == "client" { // rogue server
 		switch s.Rogue {
@@ -286,10 +290,19 @@ func runC03(t *testing.T, scn c03Scn) c03Obs {
 	defer lab.close()
 	c03AttackerConn = lab.Client.Conn
 	defer func() { c03AttackerConn = nil }()
+	c03SilentRelease = make(chan struct{})
+	c03AckSent = 0
+	defer close(c03SilentRelease) // runs before lab.close: lets a rogue that "went silent" go
 	lab.Pump.run(lab.bothDone, 25*time.Second)
+	obs.AckSent = c03AckSent
 	obs.CRes, obs.CErr = c03Class(lab.Client)
 	obs.SRes, obs.SErr = c03Class(lab.Server)
 	honest, rogue := lab.peer(scn.Honest), lab.other(scn.Honest)
+	if honest.handshakeDone() && honest.Err == nil {
+		if st, ok := honest.Conn.ConnectionState(); ok {
+			obs.PeerCerts = len(st.PeerCertificates)
+		}
+	}
 	// application data: whoever believes to be established writes; everybody who can reads
 	for _, p := range []*vPeer{honest, rogue} {
 		if p.handshakeDone() && p.Err == nil {
